@@ -61,3 +61,9 @@ claim("C19",
       "Decides the sharing discipline that 'Box<int> never changes what Box<string> accepts' depends on: methods of ClassGeneric are read-only with respect to the shared declaration, each instantiation owns its type-argument map built from its own arguments, and the generic type predicate is not constant (listed as a finding). Acceptance of a particular value is not decided.",
       "method names with a receiver-mutating implementation in node/data are computed on every run; struct copies by value are private; pointer fields inside a copied struct are not followed",
       "DESIGN.md §2 C19")
+
+claim("C14",
+      "zone abstract interpretation of the byte-level decoders with the protowire.Consume* contract modelled; success-return/remaining-input check; call-graph cycle check of the depth parameter; allocation-bound check",
+      "Decides structural totality clauses of the two hand-written decoders (protobuf wire parser, unserialize): every index/slice of the input is in bounds on every path (each Consume* length is tested before use), success is returned only when no input is left, every recursion cycle passes the depth guard and increments depth, and allocations sized by decoded numbers are bounded by the remaining input. Encoder faithfulness, round trips, which inputs are well-formed, machine-integer overflow and JSON (delegated to encoding/json) are not decided.",
+      "protowire.Consume* contract (n <= len(b) or negative); unbounded-integer arithmetic in the zone domain; A-IDX-NONNEG",
+      "DESIGN.md §2 C14")
